@@ -27,6 +27,7 @@ package main
 import (
 	"bytes"
 	"fmt"
+	"path/filepath"
 	"sort"
 	"strconv"
 	"strings"
@@ -792,9 +793,9 @@ func main() {
 			out.Violate(xvlib.Violation{Key: v.key, What: what, Ops: min, Impl: ma})
 		}
 	}
-	if args.Replay != "" {
+	runFile := func(path string) {
 		var cur []string
-		for _, l := range xvlib.ReadLines(args.Replay) {
+		for _, l := range xvlib.ReadLines(path) {
 			if strings.HasPrefix(l, "reset") && len(cur) > 0 {
 				runAndEmit(cur)
 				cur = nil
@@ -804,11 +805,21 @@ func main() {
 		if len(cur) > 0 {
 			runAndEmit(cur)
 		}
+	}
+	if args.Replay != "" {
+		runFile(args.Replay)
 		out.Stats.Rule = "replay of " + args.Replay
 		return
 	}
 	rng := xvlib.NewRng(args.Seed)
 	thorough := args.Tier == "thorough"
+	// 0. the corpus (replays of repaired defects and hand-written corner cases) runs first
+	corpusFiles, _ := filepath.Glob(filepath.Join("corpus", args.Prop, "*.ops"))
+	sort.Strings(corpusFiles)
+	for _, f := range corpusFiles {
+		runFile(f)
+		out.Count("corpus-file")
+	}
 	// 1. exhaustive programs over 3 keys x 3 backing states
 	exLen, exLenSmall := 3, 4
 	randCases := 2000
